@@ -80,6 +80,7 @@ MenuClusterEnum == Installs({"cA"}, F, F, F, F, F) \cup Upgrades({"cA", "cB", "c
 EditsClusterEnum == {[kind |-> "edit", res |-> "r1", field |-> "f1", value |-> "z"],
                      [kind |-> "oobdel", res |-> "r2", field |-> "", value |-> ""],
                      [kind |-> "oobkeep", res |-> "r2", field |-> "", value |-> ""],
+                     [kind |-> "oobdisown", res |-> "r2", field |-> "", value |-> ""],
                      [kind |-> "oobnew", res |-> "r2", field |-> "", value |-> "none"],
                      [kind |-> "oobnew", res |-> "r3", field |-> "", value |-> "none"]}
 \* fault family: every history of up to two operations is a base of the fault sweep
@@ -143,7 +144,9 @@ EditsSome == {[kind |-> "edit", res |-> "r1", field |-> "f1", value |-> "z"],
               [kind |-> "oobdel", res |-> "r1", field |-> "", value |-> ""],
               [kind |-> "oobkeep", res |-> "r2", field |-> "", value |-> ""],
               [kind |-> "oobkeep", res |-> "r3", field |-> "", value |-> ""],
-              [kind |-> "oobunkeep", res |-> "r1", field |-> "", value |-> ""]}
+              [kind |-> "oobunkeep", res |-> "r1", field |-> "", value |-> ""],
+              [kind |-> "oobdisown", res |-> "r2", field |-> "", value |-> ""],
+              [kind |-> "oobdisown", res |-> "r3", field |-> "", value |-> ""]}
 
 EditsNew == {[kind |-> "oobnew", res |-> r, field |-> "", value |-> own] :
                 r \in {"r3", "r2"}, own \in {"none", "othername", "me"}}
